@@ -225,8 +225,34 @@ def add_spare_types(rng, sj, where="end"):
     return sj
 
 
+def add_extra_columns(rng, sj, rj):
+    """extra per-atom / per-bond columns (as a CIF-loaded object carries, e.g. _atom_site_occupancy): on the replacement
+    pattern columns the structure LACKS, optionally also an own column on the structure.  Returns a short description."""
+    what = []
+    n = len(rj["atoms"])
+    if n and rng.random() < 0.8:
+        labels = rng.choice([["_atom_site_occupancy"], ["_atom_site_occupancy", "_atom_site_note"], ["_note"]])
+        rj["xlabels"]["atom"] = list(labels)
+        for i, a in enumerate(rj["atoms"]):
+            a["x"] = ["%s%d" % (l[-3:], i) for l in labels]
+        what.append("r-atom%d" % len(labels))
+    if n >= 2 and rng.random() < 0.4:
+        i, j = rng.sample(range(n), 2)
+        rj["terms"]["bond"] = [{"a": [i, j], "ty": 0, "x": ["1.54"]}]
+        rj["xlabels"]["bond"] = ["_geom_bond_distance"]
+        if rng.random() < 0.5:
+            rj["types"]["bond"] = ["100.0 1.54"]
+        what.append("r-bond")
+    if rng.random() < 0.35:
+        sj["xlabels"]["atom"] = ["_site_tag"]
+        for i, a in enumerate(sj["atoms"]):
+            a["x"] = ["s%d" % i]
+        what.append("s-atom")
+    return "+".join(what)
+
+
 def random_case(rng, mode=None, shared=None, f=None, replace_all=None, pname=None, cell_kind=None, ncopies=None, unwrapped=None,
-                atol=None, hints=None, return_num=None, spare=None, case=None, expect=None):
+                atol=None, hints=None, return_num=None, spare=None, case=None, expect=None, extras=None, via_copy=None):
     """one C04 case: dict(sj, pj, rj, atol, f, replace_all, ignore, seed, hints, return_num, info)"""
     pname = pname or rng.choice([k for k in fl.PATTERNS])
     atol = atol if atol is not None else rng.choice(ATOLS)
@@ -247,6 +273,9 @@ def random_case(rng, mode=None, shared=None, f=None, replace_all=None, pname=Non
     if not relems:
         rj, rj_src, ekind = empty_replacement(rng, pj)
         rinfo = dict(rinfo, empty_kind=ekind)
+    xinfo = add_extra_columns(rng, sj, rj) if (extras if extras is not None else rng.random() < 0.3) else ""
+    if xinfo:
+        rinfo = dict(rinfo, extras=xinfo)
     if f is None:
         f = rng.choice(F_WEIGHTED) if rng.random() < 0.7 else round(rng.random(), rng.choice([2, 3, 6]))
     if replace_all is None:
@@ -262,7 +291,8 @@ def random_case(rng, mode=None, shared=None, f=None, replace_all=None, pname=Non
     info = dict(case["info"], boundary=boundary, outside=n_out, **rinfo)
     return {"op": "replace-c04", "sj": sj, "pj": pj, "rj": rj, "atol": atol, "f": f, "replace_all": bool(replace_all),
             "ignore": False, "seed": rng.randrange(1 << 30), "hints": [None if h is None else int(h) for h in hints],
-            "return_num": bool(return_num), "rj_src": rj_src, "info": info, **({"expect": expect} if expect else {})}
+            "return_num": bool(return_num), "rj_src": rj_src,
+            "via_copy": bool(rng.random() < 0.3 if via_copy is None else via_copy), "info": info, **({"expect": expect} if expect else {})}
 
 
 def distorted_case(rng, regime=None, **kw):
